@@ -26,6 +26,15 @@ import (
 const modPath = "github.com/Breeze0806/gobinlog"
 
 func findFunc(pkg *ssa.Package, name string) *ssa.Function {
+	if i := strings.Index(name, "$"); i >= 0 { // function literal: Parent$N
+		p := findFunc(pkg, name[:i])
+		n := 0
+		fmt.Sscanf(name[i+1:], "%d", &n)
+		if p == nil || n < 1 || n > len(p.AnonFuncs) {
+			return nil
+		}
+		return p.AnonFuncs[n-1]
+	}
 	if i := strings.Index(name, "."); i >= 0 { // Type.Method
 		tn, mn := name[:i], name[i+1:]
 		t := pkg.Type(tn)
@@ -523,6 +532,17 @@ func (e *Engine) verifyUnit(fn *ssa.Function, extra string, setv string) {
 		}
 		args = append(args, st.freshVal(p.Type(), p.Name()))
 	}
+	// a function literal verified on its own: its captured variables are arbitrary
+	var bind []Val
+	byName := map[string]Val{}
+	for _, fv := range fn.FreeVars {
+		et := fv.Type().Underlying().(*types.Pointer).Elem()
+		v := st.freshVal(et, fv.Name())
+		id := st.newCell(v)
+		cellTypes[id] = et
+		bind = append(bind, PtrCell{ID: id})
+		byName[fv.Name()] = v
+	}
 	plainNames = false
 	for k := range sets {
 		fail("-set names %q, which is not a parameter of %s", k, fn.Name())
@@ -542,7 +562,15 @@ func (e *Engine) verifyUnit(fn *ssa.Function, extra string, setv string) {
 		st.assumeT(raw)
 	}
 	if req := e.findContract(fn, "requires"); req != nil {
-		st.assumeT(e.evalContract(st, req, args, true))
+		rargs := append([]Val{}, args...)
+		for _, p := range req.Params[min(len(args), len(req.Params)):] {
+			v, ok := byName[p.Name()]
+			if !ok {
+				fail("%s: no captured variable named %s", req.Name(), p.Name())
+			}
+			rargs = append(rargs, v)
+		}
+		st.assumeT(e.evalContract(st, req, rargs, true))
 	} else {
 		e.warn("no requires for %s", fn.Name())
 	}
@@ -554,7 +582,15 @@ func (e *Engine) verifyUnit(fn *ssa.Function, extra string, setv string) {
 	if len(ens) == 0 {
 		e.warn("no ensures clause for %s", fn.Name())
 	}
-	outs := e.execFunc(st, fn, args, nil, 0)
+	if hook := e.note(fn.Pkg.Func("vc_hook_entry_" + contractStem(fn))); hook != nil {
+		// ghost initialisation at function entry
+		hs := e.execFunc(st, hook, args[:min(len(args), len(hook.Params))], nil, 1)
+		if len(hs) != 1 {
+			fail("hook %s must be straight-line", hook.Name())
+		}
+		st = hs[0].st
+	}
+	outs := e.execFunc(st, fn, args, bind, 0)
 	if len(outs) == 0 && len(e.obls) == 0 {
 		fail("no feasible return path and no obligation in %s (vacuous)", fn.Name())
 	}
@@ -566,7 +602,8 @@ func (e *Engine) verifyUnit(fn *ssa.Function, extra string, setv string) {
 			for _, p := range c.Params[min(len(cargs0), len(c.Params)):] {
 				v, ok := e.lookupName(o.st, o.fr, p.Name())
 				if !ok {
-					fail("%s: no variable named %s at a return of %s", c.Name(), p.Name(), fn.Name())
+					// a local that is not (yet) declared on this return path has its zero value
+					v = zeroVal(p.Type())
 				}
 				cargs = append(append([]Val{}, cargs...), v)
 			}
